@@ -74,7 +74,8 @@ def check_n(res, n, rng, reps):
             if Ed is None:
                 continue
             p = loc()
-            rho = float(rng.choice([0.5, 1.0, 1.5, 2.0, 3.0]))
+            # radii: ordinary ones and exactly representable small ones (rho^2 E^2 far below 1e-8, far above the library's 1e-12 zero tolerance)
+            rho = float(rng.choice([0.5, 1.0, 1.5, 2.0, 3.0, 2.0 ** -14, 2.0 ** -15, 2.0 ** -10]))
             cases = [('Direction', lambda: cl.Direction(Ed), {}),
                      ('Tangent', lambda: cl.Tangent(Ed, p), dict(location=p)),
                      ('Round', lambda: cl.Round(Ed, p, rho), dict(location=p, radius=rho)),
@@ -110,8 +111,15 @@ def check_n(res, n, rng, reps):
                         if not near(C.direction, Ed, mag(Ed)):
                             res.violate('recovered direction differs from the parameter', inp, C.direction.value.tolist(), Ed.value.tolist(), dict(site, op='direction', category=cat, k=k))
                     if 'radius' in params:
-                        if abs(complex(C.radius) - complex(params['radius'])) > 1e-9 * rho:
+                        # rad2 = X * gradeInvol(X) cancels terms of size |p|^2 |E|^2: absolute error ~1e-15 of that size in radius^2
+                        rtol = 1e-9 * rho + 1e-13 * (1 + mag(p)) ** 2 / rho
+                        if abs(complex(C.radius) - complex(params['radius'])) > rtol:
                             res.violate('recovered radius differs from the parameter', inp, str(C.radius), str(params['radius']), dict(site, op='radius', category=cat, k=k))
+                        # a real radius comes back real, an imaginary one purely imaginary (exactly: sqrt of |radius^2| times 1 or 1j)
+                        cr = complex(C.radius)
+                        if (cat == 'Round' and (isinstance(C.radius, complex) or cr.imag != 0)) or (cat == 'Round-imag' and cr.real != 0):
+                            res.violate('recovered radius is not purely real / purely imaginary', inp, repr(C.radius), str(params['radius']),
+                                        dict(site, op='radius-kind', category=cat, k=k))
                     if 'location' in params and cat != 'Tangent' or cat == 'Tangent':
                         if cat in ('Round', 'Round-imag', 'Tangent') and not near(C.location, p, mag(p) * mag(Ed)):
                             res.violate('recovered location differs from the parameter', inp, C.location.value.tolist(), p.value.tolist(), dict(site, op='location', category=cat, k=k))
